@@ -4,7 +4,9 @@ import (
 	"context"
 	"io/ioutil"
 	"os"
+	"reflect"
 	"testing"
+	"time"
 
 	"github.com/marekgalovic/anndb/cluster"
 	pb "github.com/marekgalovic/anndb/protobuf"
@@ -43,7 +45,14 @@ func verifManager(t *testing.T) (*DatasetManager, *verifLogGroup, func()) {
 	if err != nil {
 		t.Fatal(err)
 	}
-	return dm, g, func() { dm.Close(); alloc.Stop(); db.Close(); os.RemoveAll(dir) }
+	return dm, g, func() {
+		dm.Close()
+		alloc.Stop()
+		// the ready loops of the partitions' raft groups end asynchronously: give them time before the database goes away
+		time.Sleep(300 * time.Millisecond)
+		db.Close()
+		os.RemoveAll(dir)
+	}
 }
 
 // Replay of (*storage.DatasetManager).processSnapshot/post#exact (C14): restoring a catalogue snapshot must yield exactly the
@@ -67,6 +76,10 @@ func TestVerifReplayC14SnapshotRestoreExact(t *testing.T) {
 	if _, err := follower.Get(id); err != nil {
 		t.Fatal("follower did not apply create")
 	}
+	// let the partition's freshly started raft group finish its first Ready: deleting the dataset while that Ready is
+	// being saved makes the ready loop hit log.Fatal("Entry not found") - a race between RaftGroup.Stop + WAL.DeleteGroup
+	// and the running loop that is outside what sequential contracts decide (noted in DESIGN.md, not part of this replay)
+	time.Sleep(300 * time.Millisecond)
 	if err := leader.Delete(context.Background(), id); err != nil {
 		t.Fatal(err)
 	}
@@ -83,5 +96,45 @@ func TestVerifReplayC14SnapshotRestoreExact(t *testing.T) {
 	}
 	if _, err := follower.Get(id); err == nil {
 		t.Fatalf("after restoring the leader's snapshot (taken after the dataset was deleted) the follower still lists dataset %s", id)
+	}
+}
+
+// Replay of (*storage.DatasetManager).processSnapshot/order#replica-set-from-snapshot (C14: "identical ... replica assignment";
+// "restoring a catalogue snapshot and replaying the rest yields the same catalogue"). History: the leader creates a dataset and
+// then adds node 7 to its partition, then compacts; a follower that has applied only the creation receives that snapshot.
+// The follower must list the partition on the same nodes as the leader (the entry that added node 7 is never replayed to it).
+func TestVerifReplayC14SnapshotRestoresReplicaSets(t *testing.T) {
+	leader, lg, stop1 := verifManager(t)
+	defer stop1()
+	follower, _, stop2 := verifManager(t)
+	defer stop2()
+
+	ds, err := leader.Create(context.Background(), &pb.Dataset{Dimension: 2, PartitionCount: 1, ReplicationFactor: 1})
+	if err != nil {
+		t.Fatal(err)
+	}
+	id := uuid.FromBytesOrNil(ds.Meta().GetId())
+	if err := follower.process(lg.log[0]); err != nil {
+		t.Fatal(err)
+	}
+	pid := ds.partitions[0].id
+	if err := leader.addPartitionNode(context.Background(), id, pid, 7); err != nil {
+		t.Fatal(err)
+	}
+	snap, err := leader.snapshot()
+	if err != nil {
+		t.Fatal(err)
+	}
+	if err := follower.processSnapshot(snap); err != nil {
+		t.Fatal(err)
+	}
+	fd, err := follower.Get(id)
+	if err != nil {
+		t.Fatal(err)
+	}
+	want := ds.partitions[0].nodeIds()
+	got := fd.partitions[0].nodeIds()
+	if !reflect.DeepEqual(want, got) {
+		t.Fatalf("after restoring the leader's snapshot the follower lists partition %s on %v, the leader (and the snapshot) on %v", pid, got, want)
 	}
 }
